@@ -650,6 +650,8 @@ fn make_prediction<F: Float, L: Label>(
 /// classes have the same weight then the first class found with that
 /// frequency is returned.
 fn find_modal_class<L: Label>(class_freq: &HashMap<L, f32>) -> L {
+    #[cfg(linfa_verif)]
+    linfa::verif_hooks::note_order("trees.find_modal_class", class_freq.keys());
     // TODO: Refactor this with fold_first
 
     let val = class_freq
@@ -672,6 +674,8 @@ fn find_modal_class<L: Label>(class_freq: &HashMap<L, f32>) -> L {
 
 /// Given the class frequencies calculates the gini impurity of the subset.
 fn gini_impurity<L: Label>(class_freq: &HashMap<L, f32>) -> f32 {
+    #[cfg(linfa_verif)]
+    linfa::verif_hooks::note_order("trees.gini_impurity", class_freq.keys());
     let n_samples = class_freq.values().sum::<f32>();
     assert!(n_samples > 0.0);
 
@@ -686,6 +690,8 @@ fn gini_impurity<L: Label>(class_freq: &HashMap<L, f32>) -> f32 {
 
 /// Given the class frequencies calculates the entropy of the subset.
 fn entropy<L: Label>(class_freq: &HashMap<L, f32>) -> f32 {
+    #[cfg(linfa_verif)]
+    linfa::verif_hooks::note_order("trees.entropy", class_freq.keys());
     let n_samples = class_freq.values().sum::<f32>();
     assert!(n_samples > 0.0);
 
